@@ -584,7 +584,7 @@ pub fn run(ctx: Ctx) -> ! {
     let plan: Vec<(Kind, usize, usize, f64)> = if ctx.quick() {
         vec![(Kind::Int, 3, 24, 120.0), (Kind::Str, 2, 24, 120.0), (Kind::Ruid, 0, 5, 120.0)]
     } else {
-        vec![(Kind::Int, 3, 24, 900.0), (Kind::Str, 3, 24, 900.0), (Kind::Ruid, 0, 7, 1500.0)]
+        vec![(Kind::Int, 3, 24, 900.0), (Kind::Str, 3, 24, 900.0), (Kind::Ruid, 0, 8, 1500.0)]
     };
     let mut total = BfsStats::default();
     let mut per = vec![];
